@@ -71,7 +71,8 @@ SPEC = {
                  "cq_not_restores", "cq_bracketing_agrees_with_circuit", "cq_wellformed_partial", "good_gates",
                  "cq_param_cry_assembled", "cq_param_crx_assembled", "cq_param_cu3_assembled", "cq_param_ccry_assembled",
                  "cq_param_ccrx_assembled", "cq_ccrz_template_is_ccu1", "cq_csdg_of_angle", "cq_ctdg_of_angle",
-                 "cq_equiv_partial", "cq_equiv_phase_partial", "cq_equiv_term_partial", "cq_equiv_term_total", "cq_instr_is_value_line", "cq_gateMatrix_of_values", "cq_equiv_gate_partial", "cq_equiv_cond_partial", "cq_equiv_measure_partial", "cq_equiv_prep_partial",
+                 "cq_equiv_partial", "cq_equiv_phase_partial", "cq_equiv_term_partial", "cq_equiv_term_total", "cq_equiv_cond_term_partial", "cq_equiv_cond_term_total",
+                 "cq_equiv_measure_all_partial", "cq_equiv_density_partial", "cq_measure_all_is_value_lines", "cq_instr_is_value_line", "cq_gateMatrix_of_values", "cq_equiv_gate_partial", "cq_equiv_cond_partial", "cq_equiv_measure_partial", "cq_equiv_prep_partial",
                  "cq_equiv_barrier_partial", "cq_values_are_cq1_semantics",
                  "templates_as_modelled", "cq_const1_plain",
                  "cq_const1_conditional", "cq_const2_plain", "cq_const2_conditional", "cq_const_multi_plain",
@@ -108,10 +109,15 @@ SPEC = {
 def run(ctx):
     vlib.standard_flow(ctx, SPEC)
     ctx.assumptions += [
-        "cq_equiv_partial is proved for whole circuits of the per-operation class FaithfulOp on value-level statements (fold of cq_equiv_gate_partial for the 17 exact gates on all "
-        "placements and angles, cq_equiv_cond_partial, cq_equiv_measure/prep/barrier_partial); NOT proved: that the parsed text is that "
-        "statement list (exact parse + number round trip), CSdg CTdg, conditional gates other than one-line exact ones, "
-        "measure_all: checked by (B) on every run (exact class: 25 gates; up to a global phase: V Vdg U1 CU3)",
+        "cq_equiv_*_partial are proved for whole circuits on VALUE-level statements (dSeq = the semantics of Spec/CQ1 on statements given "
+        "by matrices), for the per-operation class FaithfulOpM: gates whose term satisfies termOK (25 exact library gates, V Vdg U1 CU3 "
+        "up to a unit factor, Kron of one-line gates, Composite, Loop not inside a Loop) on valid placements; CONDITIONAL gate terms "
+        "whose library leaves all have a ONE-line translation (condTermOK: Kron / Composite / Loop in any nesting, also V Vdg U1), on a "
+        "non-empty control list without repetition in range and a target below 2^len (a multi-line leaf under a condition is the known "
+        "finding and is excluded); measure X/Y/Z of qubit q into bit q; reset; barrier; measure_all in Z into bits 0..n-1 (up to a "
+        "permutation of the branch list, for the non-zero test that keeps every branch). cq_equiv_density_partial states it per "
+        "register word as equality of densities. NOT proved: that the parsed TEXT is that statement list for every exported line "
+        "(see the text-link assumption below), CSdg CTdg (decimal literals), measure_all in X/Y (known finding): checked by (B) on every run",
         "cq_wellformed_partial assumes GoodNum of the number printer: f64::to_string prints one decimal literal (false for NaN / inf) and "
         "the C14 expression evaluator accepts the evaluated holes of the generated templates with printed numbers for the parameters "
         "(an unevaluated hole would stay in the text and is caught by (A) and (B)); non-vacuous: unitNum_good",
